@@ -17,6 +17,10 @@ DRIFT = {"A": (1.0, 0.5), "B": (-1.5, 1.0), "C": (0.5, -2.0)}
 # cumulative displacement exceeds the separation within 4 frames while each step stays well below it
 FAST_BASE = {"A": (50.0, 60.0), "B": (50.0, 160.0), "C": (50.0, 260.0)}
 FAST_STEP = (30.0, 0.0)
+# "stride" scenario (C10, OKS configurations): same layout, 12 px per frame - a displacement at which the (very peaked,
+# stddev 0.025) OKS of an animal with its own last pose is ~1e-75 (1e-300 after one absent frame): tiny but positive,
+# while the OKS with any other animal is exactly 0
+STRIDE_STEP = (12.0, 0.0)
 
 # "diag" scenario (C10, IoU scoring only): diagonal neighbours - boxes (12x14) separated along BOTH axes by 17 px, all
 # drifting by (1, 0.5) px/frame; centre distance 42 px
@@ -42,6 +46,9 @@ def make_instance(animal, frame, drift=False, score=0.9, nan=None):
     if drift == "fast":
         bx, by = FAST_BASE[animal]
         bx, by = bx + FAST_STEP[0] * frame, by + FAST_STEP[1] * frame
+    elif drift == "stride":  # OKS configurations: FAST layout, 12 px per frame (own-track OKS ~1e-75: positive in float64 only)
+        bx, by = FAST_BASE[animal]
+        bx, by = bx + STRIDE_STEP[0] * frame, by + STRIDE_STEP[1] * frame
     elif drift == "diag":
         bx, by = DIAG_BASE[animal]
         bx, by = bx + DIAG_STEP[0] * frame, by + DIAG_STEP[1] * frame
